@@ -49,6 +49,7 @@ type Disagreement struct {
 	ModelOut string      `json:"model"`
 	Failing  string      `json:"failing_input,omitempty"`
 	Sample   interface{} `json:"case,omitempty"`
+	Original string      `json:"original_request,omitempty"` // the byte-level request when the model was asked through the decoded-packets route
 }
 
 type Stats struct {
@@ -100,12 +101,14 @@ func runCases(pool *model.Pool, workers int, gen func(emit func(Case)), st *Stat
 					st.Samples = append(st.Samples, c.Sample)
 				}
 				st.mu.Unlock()
+				original := ""
 				if strings.HasPrefix(ans, "unmodelled") {
 					st.mu.Lock()
 					st.ByBranch[c.Stream+"/route=decoded-packets"]++
 					st.mu.Unlock()
 					if c.Fallback != nil {
 						if l2 := c.Fallback(); l2 != "" {
+							original = c.Line
 							c.Line = l2
 							ans, err = p.Ask(l2)
 							if err != nil {
@@ -125,7 +128,7 @@ func runCases(pool *model.Pool, workers int, gen func(emit func(Case)), st *Stat
 						same = c.Cmp(c.GoOut, ans)
 					}
 					if !same {
-						d := Disagreement{Stream: c.Stream, Line: c.Line, GoOut: c.GoOut, ModelOut: ans, Sample: c.Sample}
+						d := Disagreement{Stream: c.Stream, Line: c.Line, GoOut: c.GoOut, ModelOut: ans, Sample: c.Sample, Original: original}
 						if c.Predicate != nil {
 							d.Failing = c.Predicate()
 						}
